@@ -45,6 +45,19 @@ def _range_bounds(it):
     return None
 
 
+_PM = {}
+
+
+def _parents(f):
+    if id(f) not in _PM:
+        pm = {}
+        for n in ast.walk(f):
+            for c in ast.iter_child_nodes(n):
+                pm[c] = n
+        _PM[id(f)] = pm
+    return _PM[id(f)]
+
+
 def check_get_score(ctx):
     prog = ctx.prog
     site = "verif.data.Data._get_score"
@@ -102,6 +115,34 @@ def check_get_score(ctx):
         ctx.ob("C01.3", site, not bad and uses_own, "array cached for input %s is built only from that input's data and index lists" % k_in,
                loc=loc, msg="the array stored for input %s reads %s" % (k_in, ", ".join(sorted(set(bad))) or "no input at all"),
                sample={"rule": "C01.3", "store": "cache[%s][%s]" % (k_in, str(fld)[:60]), "foreign_reads": bad})
+        # every input is loaded whatever the inputs before it contained: the loop over the inputs that performs this load is not left
+        # early (a `break` / `return` after the first input that has the field hands that input's array to all the others)
+        kk = k_in.key()
+        if kk.endswith("#2"):
+            pm = _parents(prog.own_method(site))
+            n_ = e["node"]
+            loop = None
+            while n_ in pm:
+                n_ = pm[n_]
+                if isinstance(n_, ast.For) and any(isinstance(t, ast.Name) and ("$" + t.id + "#2") == kk for t in ast.walk(n_.target)):
+                    loop = n_
+                    break
+            early = []
+            if loop is not None:
+                stack = list(loop.body)
+                while stack:
+                    x = stack.pop()
+                    if isinstance(x, (ast.Break, ast.Return)):
+                        early.append(x)
+                    if isinstance(x, (ast.For, ast.While, ast.FunctionDef)):
+                        stack.extend(y for y in ast.walk(x) if isinstance(y, ast.Return) and not isinstance(x, ast.FunctionDef))
+                        continue
+                    stack.extend(ast.iter_child_nodes(x))
+            if loop is not None:         # (a load that sits in a helper evaluated in place has its loop elsewhere: nothing to decide here)
+                ctx.ob("C01.3", site, not early, "the loop that loads input %s visits every input (no break / return inside)" % k_in, loc=loc,
+                       msg="the loop over the inputs that loads each input's own array is left early (line %s): the inputs after the first one that has "
+                           "the field are given that input's array although they have their own data" % ", ".join(str(x.lineno) for x in early),
+                       sample={"rule": "C01.3", "store": "cache[%s]" % k_in, "early_exits": [x.lineno for x in early]})
         # dimension-position agreement of the three indexing steps (also C02.2)
         pos = {}
         for a in q.atoms(val, "getitem"):
